@@ -204,7 +204,7 @@ func TestC14(t *testing.T) {
 	check(t, "generated", 20000, 200000, func(rt *rapid.T) {
 		helper := rapid.SampledFrom([]string{"multi", "uni"}).Draw(rt, "helper")
 		dt := rapid.SampledFrom(ops.AllTypes).Draw(rt, "dtype")
-		p := genBroadcastPair(5, 9, 600).Draw(rt, "pair")
+		p := genBroadcastPair(5, 9, 2000).Draw(rt, "pair")
 		a, b := p[0], p[1]
 		if helper == "uni" && rapid.IntRange(0, 2).Draw(rt, "uniValid") > 0 {
 			a = p[2] // make A the full result shape: the valid unidirectional class
